@@ -93,6 +93,13 @@ def addSr (p : Snap) (sr : Nat) (splits : List Nat) : Option Snap :=
   | some false => some { p with srs := setFlag p.srs sr, srAcks := p.srAcks ++ [(sr, splits)],
                                 splitStates := p.splitStates ++ splits }
 
+/-- `addSourceRunnerSnapshot` of the unrepaired code (D12): a repeated acknowledgement is only logged -/
+def addSrOld (p : Snap) (sr : Nat) (splits : List Nat) : Option Snap :=
+  match p.srs.lookup sr with
+  | none => none
+  | some _ => some { p with srs := setFlag p.srs sr, srAcks := p.srAcks ++ [(sr, splits)],
+                            splitStates := p.splitStates ++ splits }
+
 /-- the common tail of both `Add…Snapshot` methods: `if isComplete { finishSnapshot; pending = nil }` -/
 def finishIfComplete (s : St) (p : Snap) : St × Res × Option Snap :=
   if p.isComplete then ({ s with pending := none }, .ok, some p)
